@@ -967,8 +967,10 @@ func ParseSpecFile(path, pkg string, isGo, trusted bool) (*SpecFile, error) {
 				}
 			} else {
 				req = []string{v + " != nil"}
-				mods = []string{v + ".len", v + ".writes", v + ".data"}
+				mods = []string{v + ".len", v + ".writes", v + ".data", v + ".wfailed"}
 				ens = []string{
+					"[C03] " + v + ".wfailed ==> (" + errName + " != nil || old(" + v + ".wfailed))",
+					"[C03] old(" + v + ".wfailed) ==> " + v + ".wfailed",
 					v + ".len >= old(" + v + ".len)",
 					"forall j int {" + v + ".data[j]} :: j < old(" + v + ".len) ==> " + v + ".data[j] == old(" + v + ".data[j])",
 				}
